@@ -2,6 +2,7 @@ package main
 
 import (
 	"fmt"
+	"regexp"
 	"strings"
 	"sync"
 	"time"
@@ -95,7 +96,7 @@ func checkLegal(cfg capCfg, c *peerCmd) []string {
 func runC18(h *H) {
 	imports := []string{"From GoImap.Base Require Import Bytes.", "From GoImap.Model Require Import Wire ClientWrite."}
 	corr := h.NewCorr("cmdbytes", imports, "cw_mismatches", 600).Type("cw_case")
-	h.Rule("real imapclient.Client against a scripted server, for capability sets {IMAP4rev1, +LITERAL-, +LITERAL+, IMAP4rev2, rev1+rev2, +ENABLE UTF8=ACCEPT (enabled or not)}: LOGIN, SELECT, EXAMINE, CREATE, DELETE, RENAME, SUBSCRIBE, UNSUBSCRIBE, STATUS, COPY, MOVE, LIST, SEARCH (string keys) and APPEND (sizes 0, 1, 4095..4097, 5000) with string arguments from the classes {plain, space, quote, backslash, CR, LF, NUL, 8-bit UTF-8, invalid UTF-8, 4096 and 4097 bytes, empty}; the server delays every continuation request (payload before '+' is a violation) and in a second pass refuses every synchronising literal with a tagged NO or BAD [TOOBIG], alternating (any payload byte afterwards is a violation; other commands and the connection must stay usable). Every received command is scanned by an independent tokenizer against the advertised capabilities; the exact bytes of string-only commands are re-derived by the model inside Coq. Non-trivial = the argument needed a literal or 8-bit quoting; distinct by (caps, command, argument).")
+	h.Rule("real imapclient.Client against a scripted server, for capability sets {IMAP4rev1, +LITERAL-, +LITERAL+, IMAP4rev2, rev1+rev2, +ENABLE UTF8=ACCEPT (enabled or not)}: LOGIN, SELECT, EXAMINE, CREATE, DELETE, RENAME, SUBSCRIBE, UNSUBSCRIBE, STATUS, COPY, MOVE, LIST, SEARCH (string keys; the MODSEQ entry name) and APPEND (sizes 0, 1, 4095..4097, 5000) with string arguments from the classes {plain, space, quote, backslash, CR, LF, NUL, 8-bit UTF-8, invalid UTF-8, 4096 and 4097 bytes, empty}; the server delays every continuation request (payload before '+' is a violation) and in a second pass refuses every synchronising literal with a tagged NO or BAD [TOOBIG], alternating (any payload byte afterwards is a violation; other commands and the connection must stay usable); in a third pass only the first literal of LOGIN, RENAME and APPEND (its mailbox name, message of 11 and 5000 bytes) is refused: no byte of the command may follow and the next literal must get its own continuation request. Every received command is scanned by an independent tokenizer against the advertised capabilities; the exact bytes of string-only commands are re-derived by the model inside Coq. Non-trivial = the argument needed a literal or 8-bit quoting; distinct by (caps, command, argument).")
 
 	cfgs := []capCfg{{"IMAP4rev1", false}, {"IMAP4rev1 LITERAL-", false}, {"IMAP4rev1 LITERAL+", false}, {"IMAP4rev2", false},
 		{"IMAP4rev1 IMAP4rev2", false}, {"IMAP4rev1 ENABLE UTF8=ACCEPT", false}, {"IMAP4rev1 ENABLE UTF8=ACCEPT", true}, {"IMAP4rev1 ENABLE UTF8=ACCEPT LITERAL+", true},
@@ -134,6 +135,13 @@ func runC18(h *H) {
 		{"LIST", func(c *imapclient.Client, s string) error { _, err := c.List("", s, nil).Collect(); return err }, "", ""},
 		{"SEARCH", func(c *imapclient.Client, s string) error {
 			_, err := c.Search(&imap.SearchCriteria{Body: []string{s}, Header: []imap.SearchCriteriaHeaderField{{Key: "Subject", Value: s}}}, nil).Wait()
+			return err
+		}, "", ""},
+		// RFC 7162 search-modseq-ext: the entry name is a quoted string on the wire, so the same
+		// rules apply to it as to every other string argument (kept last: on a client that writes
+		// it unchecked the injected line kills the connection)
+		{"SEARCH-MODSEQ", func(c *imapclient.Client, s string) error {
+			_, err := c.Search(&imap.SearchCriteria{ModSeq: &imap.SearchCriteriaModSeq{ModSeq: 5, MetadataName: s, MetadataType: imap.SearchCriteriaMetadataAll}}, nil).Wait()
 			return err
 		}, "", ""},
 	}
@@ -209,7 +217,11 @@ func runC18(h *H) {
 						}
 						for _, b := range checkLegal(cfg, c) {
 							desc["sent"] = string(c.Raw)
-							h.Fail("illegal-output:"+strings.SplitN(b, ":", 2)[0], fmt.Sprintf("%s(%q) under [%s enabled=%v]: %s", o.name, s, cfg.Caps, cfg.Enable, b), desc)
+							sig := "illegal-output:" + strings.SplitN(b, ":", 2)[0]
+							if o.name == "SEARCH-MODSEQ" {
+								sig += ":search-modseq-entry-name"
+							}
+							h.Fail(sig, fmt.Sprintf("%s(%q) under [%s enabled=%v]: %s", o.name, s, cfg.Caps, cfg.Enable, b), desc)
 						}
 					}
 					if refuse {
@@ -464,6 +476,10 @@ func runC18(h *H) {
 			if (c.Name == "LOGIN" || c.Name == "RENAME") && len(c.Lits) == 0 {
 				return "NO literal refused"
 			}
+			// APPEND: the literal of the mailbox name (the only one above 4096 bytes here)
+			if c.Name == "APPEND" && len(c.Lits) == 0 && size > 4096 {
+				return "NO name too long"
+			}
 			return ""
 		}
 		peer.OnCommand = func(p *scriptedPeer, c *peerCmd) {
@@ -482,19 +498,33 @@ func runC18(h *H) {
 			continue
 		}
 		dead := false
-		for _, two := range []string{"LOGIN", "RENAME"} {
+		for _, two := range []string{"LOGIN", "RENAME", "APPEND", "APPEND-5000"} {
 			for _, s := range []string{"a\rb", "c\nd", strings.Repeat("q", 4097)} {
 				if dead {
 					break
+				}
+				if strings.HasPrefix(two, "APPEND") && len(s) <= 4096 {
+					continue // the mailbox name goes out as a quoted (modified UTF-7) string
 				}
 				desc := map[string]interface{}{"caps": cfg, "command": two, "arg_hex": fmt.Sprintf("%x", s), "refuse_first_literal": true}
 				h.InFlight(desc)
 				before := len(peer.Commands())
 				if !withTimeout(5*time.Second, func() {
-					if two == "LOGIN" {
+					switch two {
+					case "LOGIN":
 						client.Login(s, s).Wait()
-					} else {
+					case "RENAME":
 						client.Rename(s, s).Wait()
+					default:
+						// the mailbox name is the first literal; the message is the second one
+						n := 11
+						if two == "APPEND-5000" {
+							n = 5000
+						}
+						ac := client.Append(s, int64(n), nil)
+						ac.Write([]byte(strings.Repeat("hello world", n)[:n]))
+						ac.Close()
+						ac.Wait()
 					}
 				}) {
 					h.Fail("client-hang:"+two, fmt.Sprintf("%s(%q, %q) did not return after its first literal was refused", two, s, s), desc)
@@ -515,6 +545,21 @@ func runC18(h *H) {
 					_, aerr = ac.Wait()
 				})
 				sync := false
+				// nothing of the refused command may follow its refusal: whatever the peer read
+				// afterwards has to be a new command of the client ("T<n> ...")
+				leaked := false
+				for i, c := range peer.Commands()[before:] {
+					if i > 0 && !reClientTag.Match(c.Raw) {
+						leaked = true
+						desc["received_after_refusal"] = string(c.Raw[:min(len(c.Raw), 100)])
+						h.Fail("payload-after-refusal:"+two, fmt.Sprintf("the server refused the first literal of %s (the mailbox name) with a tagged NO, yet bytes of that command reached it afterwards: the next thing it read was %q", two, string(c.Raw[:min(len(c.Raw), 60)])), desc)
+						break
+					}
+				}
+				if leaked {
+					dead = true // the stream is out of step from here on
+					break
+				}
 				for _, c := range peer.Commands()[before:] {
 					for _, l := range c.Lits {
 						if !l.NonSync {
@@ -546,6 +591,9 @@ func runC18(h *H) {
 		peer.Close()
 	}
 }
+
+// reClientTag matches the start of a command of the real client (tags are T1, T2, ...).
+var reClientTag = regexp.MustCompile(`^T[0-9]+ `)
 
 func capTerms(c capCfg) []string {
 	var out []string
